@@ -19,11 +19,11 @@ import internmc
 # sequential-engine properties (monitor: specs/core/CoreTrace.tla)
 
 SEQ = {
-    "C01": dict(mc=["core", "dur", "untracked", "lru"], families=["core", "dur", "untracked", "lru", "struct", "intern", "churn", "reclaim", "mixed"],
+    "C01": dict(mc=["core", "dur", "untracked", "lru"], families=["core", "dur", "untracked", "lru", "struct", "structdur", "intern", "churn", "reclaim", "mixed"],
                 needs=["op:set", "dv", "we"],
                 rule="random programs (decision-tree bodies over inputs, cells, calls, structs, interning) x random "
                      "histories; non-trivial = the history has a write, a validated reuse and an execution"),
-    "C02": dict(mc=["dur"], families=["dur"], needs=["op:set", "dv", "we"],
+    "C02": dict(mc=["dur"], families=["dur", "structdur"], needs=["op:set", "dv", "we"],
                 rule="durability family: writes with keep/LOW/MEDIUM/HIGH/NEVER, synthetic writes of every durability; "
                      "non-trivial = a write, a validated reuse and an execution in one history"),
     "C03": dict(mc=["core", "dur", "untracked", "lru"], families=["core", "dur", "untracked", "lru", "struct", "mixed"], needs=["op:set", "dv", "we", "eq"],
@@ -49,7 +49,7 @@ SEQ = {
                      "non-trivial = a specify, a struct creation and a write"),
     "C11": dict(families=["accum", "accchain", "accumlru"], scale=2, needs=["op:accum", "accv", "op:set"],
                 rule="accum family; non-trivial = accumulated() requested, values pushed and a write"),
-    "C12": dict(families=["fix", "fixshape"], fixmc=True, needs=["wic", "op:set"],
+    "C12": dict(families=["fix", "fixshape", "fixstruct"], fixmc=True, needs=["wic", "op:set"],
                 rule="fix family: 1-4 mutually recursive functions with cycle_initial = bottom (0) over 3-bit sets, bodies are "
                      "unions of masked calls, input-controlled (conditionally formed, nested) cycles, default and joining "
                      "cycle_fn, plain consumers and leaves; every function requested as entry point; non-trivial = the "
